@@ -569,6 +569,11 @@ func init() {
 	})
 	vp("And", func(e *Exec, _ *frame, a []Value) Value { return e.tb.And(a[0].(*Term), a[1].(*Term)) })
 	vp("Or", func(e *Exec, _ *frame, a []Value) Value { return e.tb.Or(a[0].(*Term), a[1].(*Term)) })
+	vp("Stub", func(e *Exec, _ *frame, a []Value) Value {
+		// replaces a function of the code under test by a harness closure (engine only; listed in evidence)
+		e.stubs[e.argStr(a[0])] = a[1].(Iface).V
+		return nil
+	})
 	vp("Symbolic", func(e *Exec, _ *frame, a []Value) Value { return e.tb.Bool(true) })
 	vp("Note", func(e *Exec, _ *frame, a []Value) Value { e.notes = append(e.notes, e.argStr(a[0])); return nil })
 
